@@ -1,2 +1,2 @@
-import sys; sys.path.insert(0,'/tmp/fixes'); from edit import rep
+import sys; sys.path.insert(0,'/verif/tools'); from edit import rep
 rep('segno/consts.py', "    'cp437': 1,", "    'cp437': 2,")
